@@ -358,6 +358,19 @@ def run(ctx, rep, model=True):
             histories(ctx, rep, spec)
             if len(rep.violations) >= 25:
                 break
+    # plotfiles written WITH ghost cells (every FAB on disk is its box grown by g cells; the FAB header names the grown box, the
+    # level header records g): what is on disk for a box is the grown block.  Own random stream: the cases above are unchanged
+    import random
+    grng = random.Random(ctx.seed * 1000003 + 1)
+    with pools.controlled():
+        for i in range(2 if ctx.quick else 8):
+            if len(rep.violations) >= 25:
+                break
+            spec = plotgen.random_spec(grng, ndims=[3, 2][i % 2], nf=[3, 2][i % 2], data="bits", B=2)
+            spec["nghost"] = 1 + i % 2
+            rep.count(f"ghost-cells-on-disk:{spec['nghost']}")
+            names = dedup_names(spec["fields"])
+            run_spec(ctx, rep, spec, make_cases(ctx, spec, names, True), model)
     if not ctx.quick and not rep.violations:
         # real process pools for the box-collection forms
         for spec in specs_for(ctx, 3):
